@@ -143,6 +143,7 @@ def run(ctx):
     ctx.trusted += ["hand-written models Render.lean / IgnoredScan (Props/C07.lean)", "hooks H1/H3"]
     ctx.assumptions += ["regex markers (processing_cmt_as_regex) are not modelled", "body lines never contain the enable marker / endasm"]
     ctx.lean_obligations()
+    common.lean_extra(ctx, "UncModel.Props.RenderMore", ["region_bytes", "region_bytes_embedded"])
     exe = common.build_repo(hooks=True)
     thorough = ctx.tier == "thorough"
     rng = ctx.rng
